@@ -579,3 +579,113 @@ CONTROLS['C02'] += [
       F('core', 'PrefetchDataset.__len__', lambda n: isinstance(n, ast.If),
         lambda n: (setattr(n, 'test', M.parse_expr('self.catch_filter_exception is True')), n)[1]), 'K2'),
 ]
+CONTROLS['C17'] += [
+    C('lower bound derived from the stale max_len (P8)',
+      expr_replace('core', 'DynamicTimeSeriesBucket._append', 'seq_len * (1 - self.max_padding_rate)',
+                   'self.max_len * (1 - self.max_padding_rate)'), 'P8', tier='quick'),
+    C('upper bound multiplies instead of divides (P8)',
+      expr_replace('core', 'DynamicTimeSeriesBucket._append', 'seq_len / (1 - self.max_padding_rate)',
+                   'seq_len * (1 - self.max_padding_rate)'), 'P8'),
+]
+CONTROLS['C19'] += [
+    C('taken names computed once before the merge loop (DUP)',
+      F('database', '_merge_database_dicts', lambda n: isinstance(n, ast.For) and 'database_dicts' in A.src(n.iter),
+        lambda n: [[s for s in n.body if isinstance(s, ast.Assign) and 'dataset_names' in A.src(s.targets[0])][0],
+                   (setattr(n, 'body', [s for s in n.body if not (isinstance(s, ast.Assign) and 'dataset_names' in A.src(s.targets[0]))]), n)[1]]),
+      'DUP', tier='quick'),
+]
+CONTROLS['C10'] += [
+    C('negative index normalised against the number of cached entries (K)',
+      expr_replace('core', 'CacheDataset.__getitem__', 'item + len(self)', 'item + len(self._cache)'), 'K', tier='quick'),
+]
+CONTROLS['C11'] += [
+    C('negative index normalised against the number of cached entries (K, inherited lookup)',
+      expr_replace('core', 'CacheDataset.__getitem__', 'item + len(self)', 'item + len(self._cache)'), 'K', tier='quick'),
+    C('items() of a cache reads the upstream directly (H, inherited iteration)',
+      expr_replace('core', 'CacheDataset.__iter__', 'self[i]', 'self.input_dataset[i]'), 'H'),
+]
+CONTROLS['C09'] += [
+    C('items() of a cache bypasses the snapshot (H)',
+      expr_replace('core', 'CacheDataset.__iter__', 'self[i]', 'self.input_dataset[i]'), 'H', tier='quick'),
+]
+CONTROLS['C02'] += [
+    C('slice lookup normalised against a foreign length (N)',
+      expr_replace('core', 'BatchDataset.__getitem__', 'item + len(self)', 'item + len(self.input_dataset)'), 'N'),
+]
+
+
+def _flip_default(module, path, param):
+    def match(n):
+        return isinstance(n, ast.arguments) and param in [x.arg for x in n.args]
+
+    def apply(n):
+        pos = n.posonlyargs + n.args
+        names = [x.arg for x in pos[len(pos) - len(n.defaults):]]
+        n.defaults[names.index(param)] = ast.Constant(True)
+        return n
+    return F(module, path, match, apply)
+
+
+CONTROLS['C13'] += [
+    C('copy() of one stage freezes by default (SG)', _flip_default('core', 'SliceDataset.copy', 'freeze'), 'SG', tier='quick'),
+]
+CONTROLS['C03'] += [
+    C('plain iteration of one stage yields pairs by default (SG)', _flip_default('core', 'FilterDataset.__iter__', 'with_key'), 'SG',
+      tier='quick'),
+]
+CONTROLS['C19'] += [
+    C('duplicate assertion with inverted polarity (DUP)',
+      F('database', '_merge_database_dicts', lambda n: isinstance(n, ast.Assert) and 'duplicate_keys' in A.src(n.test),
+        lambda n: (setattr(n, 'test', n.test.operand), n)[1]), 'DUP'),
+]
+CONTROLS['C14'] += [
+    C('catch() does not forward the exception selection (WR)',
+      F('core', 'Dataset.catch', lambda n: isinstance(n, ast.Call) and A.dotted(n.func) == 'CatchExceptionDataset',
+        M.drop_keyword('exceptions')), 'WR', tier='quick'),
+]
+CONTROLS['C01'] += [
+    C('map() builds the stage with swapped arguments (WR)',
+      F('core', 'Dataset.map', lambda n: isinstance(n, ast.Call) and A.dotted(n.func) == 'MapDataset',
+        lambda n: (setattr(n, 'args', [n.args[1], n.args[0]]), n)[1]), 'WR', tier='quick'),
+    C('batch() drops drop_last (WR)',
+      F('core', 'Dataset.batch', lambda n: isinstance(n, ast.Call) and A.dotted(n.func) == 'BatchDataset',
+        lambda n: (setattr(n, 'args', n.args[:2]), n)[1]), 'WR'),
+]
+CONTROLS['C04'] += [
+    C('multi-worker prefetch without catch delivers nothing (I)',
+      F('core', 'PrefetchDataset.__iter__', lambda n: isinstance(n, ast.Expr) and isinstance(n.value, ast.YieldFrom)
+        and 'lazy_parallel_map' in A.src(n.value), M.delete_keep_pass), 'I', tier='quick'),
+]
+CONTROLS['C03'] += [
+    C('keys() of a concatenation never fills its memo (MV)',
+      F('core', 'ConcatenateDataset.keys', lambda n: isinstance(n, ast.Assign) and A.is_self_attr(n.targets[0], '_keys'),
+        M.delete_keep_pass), 'memo-filled', tier='quick'),
+    C('keys() of an empty slice returns the empty memo (MV)',
+      F('core', 'SliceDataset.keys', lambda n: isinstance(n, ast.Assign) and A.is_self_attr(n.targets[0], '_keys')
+        and A.src(n.value) == '()', M.delete_keep_pass), 'memo-filled'),
+]
+CONTROLS['C20'] += [
+    C('hit counter starts at one (CN)',
+      F('core', 'ProfilingDataset.__init__', lambda n: isinstance(n, ast.Assign) and A.is_self_attr(n.targets[0], 'hit_count'),
+        lambda n: M.parse_stmt('self.hit_count = [1, 0]')), 'counter-starts-at-zero', tier='quick'),
+]
+CONTROLS['C17'] += [
+    C('bucket lives one element longer than expiration (P10)',
+      F('core', 'DynamicBucketDataset.__iter__', lambda n: isinstance(n, ast.Compare) and 'expiration' in A.src(n) and 'creation_idx' in A.src(n),
+        M.set_cmp_op(ast.Gt)), 'expiry-age-test', tier='quick'),
+    C('expiry age computed with + (P10)',
+      expr_replace('core', 'DynamicBucketDataset.__iter__', 'i - creation_idx', 'i + creation_idx'), 'expiry-age-test'),
+]
+CONTROLS['C04'] += [
+    C('user kwargs always replaced by {} (Q6)',
+      F('parallel_utils', 'lazy_parallel_map', lambda n: isinstance(n, ast.If) and A.src(n.test) == 'kwargs is None',
+        lambda n: n.body), 'Q6', tier='quick'),
+    C('backend branch selected by a negated test (Q7)',
+      F('parallel_utils', 'lazy_parallel_map', lambda n: isinstance(n, ast.Compare) and A.src(n) == "backend == 'dill_mp'",
+        M.set_cmp_op(ast.NotEq)), 'Q7', tier='quick'),
+]
+CONTROLS['C13'] += [
+    C('local shuffle accepted for a one-time shuffle (OR)',
+      F('core', 'Dataset.shuffle', lambda n: isinstance(n, ast.Assert) and 'reshuffle' in A.src(n.test), M.delete_keep_pass),
+      're-drawing-stage-only-when-reshuffle-is-True', tier='quick'),
+]
